@@ -5,7 +5,7 @@ from typing import Optional, Tuple
 
 from .. import terms as tm
 from ..interp import Interp
-from ..lib import devectorise, fmt, fuse_elems, is_call_to, per_element
+from ..lib import opaque, devectorise, fmt, fuse_elems, is_call_to, per_element
 from ..progdb import AnalysisError
 from ..terms import T, const
 from . import metrics_model as mm
@@ -147,7 +147,12 @@ def check(ctx):
                f"{'start' if not uses[0] else 'end'} index of each id pair "
                f"(e.g. differences along the chain of end indices): wrong "
                f"for non-consecutive (all-pairs) selections",
-               key=f"C02.3:{member}:both-ends")
+               key=f"C02.3:{member}:both-ends",
+               # (values computed by a helper object / iterator adaptor that
+               # is not read: no evidence which ends they use)
+               evidence=not opaque(err) and any(
+                   x.op == "elem" and x.args[0] is IDPAIRS
+                   for x in err.walk()))
 
         # ------------------------------------------------- C02.3/4/6 values
         if family in ("pointdist", "ratio"):
@@ -208,7 +213,8 @@ def check(ctx):
                    f"id pair, one value per pair" if ok3 and not conds else
                    f"RPE[{member}]: the relative-motion composition crosses "
                    f"indices or trajectories (or filters pairs): {why}",
-                   key=f"C02.3:{member}:composition", E=fmt(E))
+                   key=f"C02.3:{member}:composition", E=fmt(E),
+                   evidence=not opaque(E) and rel is not None)
             fam = red["family"]
             if family == "norm":
                 ok = fam == "norm" and red["block"] == "trans"
@@ -235,7 +241,10 @@ def check(ctx):
         ctx.ob("C02.6", prog.func(f"{RPE}.__init__"), u is want_u,
                f"RPE[{member}]: unit is {unit_rpe}" if u is want_u else
                f"RPE[{member}]: unit is {fmt(u)}, the reduction yields "
-               f"{unit_rpe}", key=f"C02.6:{member}:unit")
+               f"{unit_rpe}", key=f"C02.6:{member}:unit",
+               # (a unit that is not resolved to a member of Unit — a call, a
+               # lookup that does not fold — is not evidence)
+               evidence=u is not None and u.op == "enum")
 
     r = _pipeline(ctx, "evo.main_rpe.rpe", "RPE", "C02")
     ctx.section(_rpe_core, ctx, r)
@@ -438,7 +447,8 @@ def coindexing(ctx, res, member, err, dids, IDPAIRS, rule, raw_dids=None):
                f"by {fmt(cond_d)}, which does not compare the selector "
                f"with the array it was computed from — delta_ids can "
                f"stay unfiltered while the values are filtered",
-               key=f"{rule}:{member}:reindex-guard", guard=fmt(cond_d))
+               key=f"{rule}:{member}:reindex-guard", guard=fmt(cond_d),
+               evidence=not opaque(dids))
 
 
 
@@ -728,7 +738,8 @@ def _rpe_core(ctx, r):
            f"rpe(): trajectories are reduced with {[fmt(x) for x in ids]} "
            f"(receivers {[fmt(e.data.get('recv')) for e in reds]}) — "
            f"expected the same [0] + delta_ids for both, after process_data",
-           key="C02.7:rpe:reduce")
+           key="C02.7:rpe:reduce",
+           evidence=not any(opaque(x) for x in ids if x is not None))
 
 
 def _delta_unit(ctx):
